@@ -148,8 +148,8 @@ theorem onAppendEntries_log (n : Node) (r : AeReq) :
     · left; rfl
   · split
     · left; rfl
-    · have hb := becomeFollower_spec n
-      have := followerAppend_log (becomeFollower n) r
+    · have hb := becomeFollower_spec { n with term := r.term }
+      have := followerAppend_log (becomeFollower { n with term := r.term }) r
       rw [hb.2.1] at this; exact this
 
 theorem onVoteRequest_log (n : Node) (r : VoteReq) : (onVoteRequest n r).1.log = n.log := by
